@@ -1,5 +1,5 @@
-import CardVerif.Model.Rank5
-import CardVerif.Spec.Poker5
+import CardModel.Model.Rank5
+import CardModel.Spec.Poker5
 import CardVerif.Proofs.Rank5Lift
 /-!
 # C05 — the five-card rank orders all hands exactly by the rules of poker
